@@ -9,6 +9,8 @@ from harness.refmodel import ref_inner, ref_left, ref_full, pairs_to_rows
 S = load()
 
 PROPERTY = "C10"
+LEVEL_TEXT = 'Exploration against reference left / full joins plus metamorphic relations (inner in left in full, every row kept, swap symmetry).'
+LEVEL_NOTE = 'As C09.'
 DESIGN_REF = "DESIGN.md §5 C10"
 ENGINE = "relational"
 TECHNIQUE = "property-based testing: generated table pairs vs nested-loop reference left/full joins, plus metamorphic containment and swap relations"
